@@ -618,7 +618,7 @@ pub fn spawn_tui(
                             Err(p) => {
                                 let what = key.as_ref().map(key_name).unwrap_or("tick".into());
                                 exec::trace(|| format!("update({}) PANIC {}:{} {}", what, p.file, p.line, p.msg));
-                                if p.file.contains("/verif/") {
+                                if p.file.contains("/verif/") || p.env_limit() {
                                     sh.borrow_mut().set(Violation::new("harness", "driver-panic", format!("{}:{} {}", p.file, p.line, p.msg)));
                                 } else {
                                     sh.borrow_mut().set(Violation::new(
@@ -701,7 +701,7 @@ pub fn spawn_tui(
                 });
                 match r {
                     Err(p) => {
-                        if p.file.contains("/verif/") {
+                        if p.file.contains("/verif/") || p.env_limit() {
                             sh.borrow_mut().set(Violation::new("harness", "driver-panic", format!("{}:{} {}", p.file, p.line, p.msg)));
                         } else {
                             let sz = terminal.backend().buffer().area;
@@ -879,7 +879,7 @@ pub fn execute(plan: &C17Plan) -> Outcome<C17Plan> {
 
     let mut sh = shared.borrow_mut();
     for p in &sim.panics {
-        if p.file.contains("/verif/") {
+        if p.file.contains("/verif/") || p.env_limit() {
             out.harness_error = Some(format!("driver panic in task {} at {}:{}: {}", p.task, p.file, p.line, p.msg));
         } else {
             let v = Violation::new("c17.1-panic", format!("task:{}", p.short_loc()), format!("task {} panicked at {}:{}: {}", p.task, p.file, p.line, p.msg));
@@ -944,5 +944,410 @@ fn crate_hash_key(k: &KeyCode) -> u64 {
         KeyCode::PageUp => 0x106,
         KeyCode::PageDown => 0x107,
         _ => 0x1ff,
+    }
+}
+
+
+// ======================================================================
+// Exhaustive layer: every sequence of up to L events over the 21-symbol
+// alphabet of the property {j,k,g,q,a,c,v,.,f,l,-,/,Esc,Enter,Backspace,Up,
+// Down,Home,PageUp,other char,Tick} applied through the real update() and the
+// real build_table() to a table of 0..3 aircraft, starting before or after the
+// first draw, on an ordinary and on a tiny terminal. Depth-first over the tree
+// of sequences: the UI part of the state is saved and restored around each
+// child (update() and build_table() do not touch the aircraft map). One "run"
+// of the batch is the subtree below one (table size, start, terminal, first
+// two events) combination.
+
+pub struct C17Seq;
+
+#[derive(Clone, Debug, Serialize, Deserialize)]
+pub struct SeqPlan {
+    pub n_rows: u8,
+    /// the first event arrives after the first draw (otherwise it races ahead of it)
+    pub drawn_first: bool,
+    pub term: (u16, u16),
+    pub len_max: u8,
+    /// the events every sequence of this block starts with (indices into the alphabet)
+    pub prefix: Vec<u8>,
+    /// exactly this sequence (replay files)
+    #[serde(default, skip_serializing_if = "Option::is_none")]
+    pub explicit: Option<Vec<u8>>,
+}
+
+const SEQ_ALPHABET: &[Ev] = &[
+    Ev::Ch('j'),
+    Ev::Ch('k'),
+    Ev::Ch('g'),
+    Ev::Ch('q'),
+    Ev::Ch('a'),
+    Ev::Ch('c'),
+    Ev::Ch('v'),
+    Ev::Ch('.'),
+    Ev::Ch('f'),
+    Ev::Ch('l'),
+    Ev::Ch('-'),
+    Ev::Ch('/'),
+    Ev::Esc,
+    Ev::Enter,
+    Ev::Backspace,
+    Ev::Up,
+    Ev::Down,
+    Ev::Home,
+    Ev::PageUp,
+    Ev::Ch('1'),
+    Ev::Tick,
+];
+const SEQ_TERMS: [(u16, u16); 2] = [(120, 24), (4, 2)];
+
+struct UiSnap {
+    items: Vec<String>,
+    state: ratatui::widgets::TableState,
+    scroll: ratatui::widgets::ScrollbarState,
+    quit: bool,
+    clear: bool,
+    sort: u8,
+    asc: bool,
+    width: u16,
+    search: bool,
+    query: String,
+    shown: Option<usize>,
+    drawn: bool,
+}
+
+fn sort_of(code: u8) -> SortKey {
+    match code {
+        0 => SortKey::CALLSIGN,
+        1 => SortKey::ALTITUDE,
+        2 => SortKey::VRATE,
+        3 => SortKey::COUNT,
+        4 => SortKey::FIRST,
+        _ => SortKey::LAST,
+    }
+}
+
+fn ui_take(a: &Jet1090, shown: Option<usize>, drawn: bool) -> UiSnap {
+    UiSnap {
+        items: a.items.clone(),
+        state: a.state.clone(),
+        scroll: a.scroll_state,
+        quit: a.should_quit,
+        clear: a.should_clear,
+        sort: sort_code(&a.sort_key),
+        asc: a.sort_asc,
+        width: a.width,
+        search: a.is_search_mode,
+        query: a.search_query.clone(),
+        shown,
+        drawn,
+    }
+}
+
+fn ui_restore(a: &mut Jet1090, s: &UiSnap) {
+    a.items = s.items.clone();
+    a.state = s.state.clone();
+    a.scroll_state = s.scroll;
+    a.should_quit = s.quit;
+    a.should_clear = s.clear;
+    a.sort_key = sort_of(s.sort);
+    a.sort_asc = s.asc;
+    a.width = s.width;
+    a.is_search_mode = s.search;
+    a.search_query = s.query.clone();
+}
+
+struct SeqCtx {
+    terminal: Terminal<TestBackend>,
+    width: u16,
+    nodes: u64,
+    states: std::collections::HashSet<u64>,
+    counters: BTreeMap<&'static str, u64>,
+    viol: Option<(Violation, Vec<u8>)>,
+    harness: Option<String>,
+}
+
+/// one event through the real handler, judged like the TUI task of the seeded
+/// scenario does; then the draw of the loop turn. Returns false when the
+/// session ended (quit, panic).
+fn seq_step(g: &mut tokio::sync::MutexGuard<'_, Jet1090>, cx: &mut SeqCtx, ev: &Ev, shown: &mut Option<usize>, drawn: &mut bool, path: &[u8]) -> bool {
+    let event = match ev {
+        Ev::Tick => Event::Tick(cx.width),
+        other => Event::Key(KeyEvent::new(keycode_of(other).unwrap(), KeyModifiers::NONE)),
+    };
+    let key = match &event {
+        Event::Key(k) => Some(k.code),
+        _ => None,
+    };
+    let pre_ok = in_range(g, *shown);
+    let pre_flags = flags_of(g);
+    let n = shown.unwrap_or(g.items.len());
+    let sel = g.state.selected();
+    if !*drawn && key.is_some() {
+        *cx.counters.entry("key_before_first_draw").or_insert(0) += 1;
+    }
+    if n == 0 && matches!(key, Some(KeyCode::Char('j')) | Some(KeyCode::Char('k')) | Some(KeyCode::Up) | Some(KeyCode::Down)) {
+        *cx.counters.entry("nav_on_empty_table").or_insert(0) += 1;
+    }
+    let what = key.as_ref().map(key_name).unwrap_or("tick".into());
+    match exec::catch("update", || crate::update(g, event)) {
+        Err(p) => {
+            if p.file.contains("/verif/") || p.env_limit() {
+                cx.harness = Some(format!("{}:{} {}", p.file, p.line, p.msg));
+            } else {
+                cx.viol = Some((
+                    Violation::new(
+                        "c17.1-panic",
+                        format!("update:{}", p.short_loc()),
+                        format!("handling key {} with {} rows displayed and selection {:?} panicked at {}:{}: {}", what, n, sel, p.file, p.line, p.msg),
+                    ),
+                    path.to_vec(),
+                ));
+            }
+            return false;
+        }
+        Ok(Err(_)) => return false,
+        Ok(Ok(())) => {}
+    }
+    if pre_ok && !in_range(g, *shown) {
+        cx.viol = Some((
+            Violation::new(
+                "c17.2-selection",
+                format!("after-{}", if n == 0 { "key-on-empty-table" } else { "key-on-nonempty-table" }),
+                format!("after key {} the selection is {:?} with {} rows displayed (it was {:?})", what, g.state.selected(), shown.unwrap_or(g.items.len()), sel),
+            ),
+            path.to_vec(),
+        ));
+        return false;
+    }
+    let want = match &key {
+        Some(code) => model(pre_flags.clone(), code),
+        None => pre_flags.clone(),
+    };
+    let got = flags_of(g);
+    if got != want {
+        let field = if got.quit != want.quit {
+            "should_quit"
+        } else if got.search != want.search {
+            "is_search_mode"
+        } else if got.sort != want.sort {
+            "sort_key"
+        } else if got.asc != want.asc {
+            "sort_asc"
+        } else {
+            "search_query"
+        };
+        cx.viol = Some((
+            Violation::new("c17.3-flags", field.to_string(), format!("key {} in {} mode: flags became {:?}, the documented key map gives {:?}", what, if pre_flags.search { "search" } else { "normal" }, got, want)),
+            path.to_vec(),
+        ));
+        return false;
+    }
+    if g.should_quit {
+        return false;
+    }
+    if g.should_clear {
+        let _ = cx.terminal.clear();
+        g.should_clear = false;
+    }
+    let r = exec::catch("draw", || cx.terminal.draw(|frame| crate::table::build_table(frame, g)).map(|_| ()));
+    if let Err(p) = r {
+        if p.file.contains("/verif/") || p.env_limit() {
+            cx.harness = Some(format!("{}:{} {}", p.file, p.line, p.msg));
+        } else {
+            let sz = cx.terminal.backend().buffer().area;
+            cx.viol = Some((
+                Violation::new("c17.1-panic", format!("draw:{}", p.short_loc()), format!("drawing the table on a {}x{} terminal panicked at {}:{}: {}", sz.width, sz.height, p.file, p.line, p.msg)),
+                path.to_vec(),
+            ));
+        }
+        return false;
+    }
+    *drawn = true;
+    *shown = rows_on_screen(cx.terminal.backend().buffer());
+    if !in_range(g, *shown) {
+        *cx.counters.entry("selection_out_of_range_after_draw").or_insert(0) += 1;
+    }
+    true
+}
+
+fn seq_dfs(g: &mut tokio::sync::MutexGuard<'_, Jet1090>, cx: &mut SeqCtx, snap: &UiSnap, depth: u8, len_max: u8, path: &mut Vec<u8>) {
+    for (ki, ev) in SEQ_ALPHABET.iter().enumerate() {
+        if cx.viol.is_some() || cx.harness.is_some() {
+            return;
+        }
+        ui_restore(g, snap);
+        let mut shown = snap.shown;
+        let mut drawn = snap.drawn;
+        path.push(ki as u8);
+        cx.nodes += 1;
+        let alive = seq_step(g, cx, ev, &mut shown, &mut drawn, path);
+        {
+            let mut f = Fnv::new();
+            f.u64(g.items.len() as u64);
+            f.u64(g.state.selected().map(|i| i as u64 + 1).unwrap_or(0));
+            let fl = flags_of(g);
+            f.u64(fl.sort as u64 * 8 + fl.asc as u64 * 4 + fl.search as u64 * 2 + fl.quit as u64);
+            f.bytes(fl.query.as_bytes());
+            cx.states.insert(f.0);
+        }
+        if alive && depth + 1 < len_max {
+            let s2 = ui_take(g, shown, drawn);
+            seq_dfs(g, cx, &s2, depth + 1, len_max, path);
+        }
+        path.pop();
+    }
+}
+
+impl Scenario for C17Seq {
+    type Plan = SeqPlan;
+    fn id(&self) -> &'static str {
+        "C17"
+    }
+    fn kind(&self) -> &'static str {
+        "sequences"
+    }
+    fn seed_tag(&self) -> String {
+        "C17/sequences".to_string()
+    }
+    fn runs(&self, _tier: Tier) -> u64 {
+        // table sizes x start x terminals x first two events
+        4 * 2 * SEQ_TERMS.len() as u64 * (SEQ_ALPHABET.len() * SEQ_ALPHABET.len()) as u64
+    }
+    fn generate(&self, _rng: &mut Rng, tier: Tier, idx: u64) -> SeqPlan {
+        let a = SEQ_ALPHABET.len() as u64;
+        let mut i = idx;
+        let k2 = (i % a) as u8;
+        i /= a;
+        let k1 = (i % a) as u8;
+        i /= a;
+        let term = SEQ_TERMS[(i % SEQ_TERMS.len() as u64) as usize];
+        i /= SEQ_TERMS.len() as u64;
+        let drawn_first = i % 2 == 1;
+        i /= 2;
+        SeqPlan { n_rows: (i % 4) as u8, drawn_first, term, len_max: if tier == Tier::Quick { 4 } else { 5 }, prefix: vec![k1, k2], explicit: None }
+    }
+    fn execute(&self, plan: &SeqPlan) -> Outcome<SeqPlan> {
+        let mut out: Outcome<SeqPlan> = Outcome::new();
+        exec::reset_world();
+        exec::install_panic_hook();
+        let app = Arc::new(Mutex::new(app::new_app(plan.term.0)));
+        // rows through the real update_snapshot, stamped now (visible: younger than 30 s)
+        {
+            let db = BTreeMap::new();
+            for ai in 0..plan.n_rows as u32 {
+                let icao = 0x400000 + 0x1111 * (ai + 1);
+                for frame in [world::df17_identification(icao, 4, 3, &format!("SIM{:04}", ai)), world::df4(icao, 0, 12000 + 500 * ai as i32)] {
+                    let Ok(message) = Message::try_from(frame.as_slice()) else { continue };
+                    let ts = exec::now_unix_f64();
+                    let mut msg = TimedMessage { timestamp: ts, frame, message: Some(message), metadata: vec![], decode_time: None };
+                    app::now_or_never(crate::snapshot::update_snapshot(&app, &mut msg, &db));
+                }
+            }
+        }
+        let mut cx = SeqCtx {
+            terminal: Terminal::new(TestBackend::new(plan.term.0, plan.term.1)).unwrap(),
+            width: plan.term.0,
+            nodes: 0,
+            states: std::collections::HashSet::new(),
+            counters: BTreeMap::new(),
+            viol: None,
+            harness: None,
+        };
+        let mut g = app.try_lock().unwrap();
+        let mut shown: Option<usize> = None;
+        let mut drawn = false;
+        if plan.drawn_first {
+            // the immediate first tick won the race: one update + draw before any key
+            let mut p = Vec::new();
+            seq_step(&mut g, &mut cx, &Ev::Tick, &mut shown, &mut drawn, &mut p);
+        }
+        let seq: Vec<u8> = plan.explicit.clone().unwrap_or_else(|| plan.prefix.clone());
+        let mut path: Vec<u8> = Vec::new();
+        let mut alive = true;
+        for &k in &seq {
+            if !alive || cx.viol.is_some() {
+                break;
+            }
+            path.push(k);
+            cx.nodes += 1;
+            alive = seq_step(&mut g, &mut cx, &SEQ_ALPHABET[k as usize % SEQ_ALPHABET.len()], &mut shown, &mut drawn, &path);
+        }
+        if plan.explicit.is_none() && alive && cx.viol.is_none() && (seq.len() as u8) < plan.len_max {
+            let snap = ui_take(&g, shown, drawn);
+            seq_dfs(&mut g, &mut cx, &snap, seq.len() as u8, plan.len_max, &mut path);
+        }
+        drop(g);
+        out.evaluations = cx.nodes.max(1);
+        out.steps = cx.nodes;
+        for (k, v) in &cx.counters {
+            out.count(k, *v);
+        }
+        out.count("sequences_prefix_nodes", cx.nodes);
+        if plan.term.0 < 5 {
+            out.count("tiny_terminal", 1);
+        }
+        out.oracle_states = cx.states.iter().copied().collect();
+        out.oracle_states.sort();
+        let mut f = Fnv::new();
+        f.u64(plan.n_rows as u64);
+        f.u64(plan.drawn_first as u64);
+        f.u64(plan.term.0 as u64);
+        for k in &plan.prefix {
+            f.u64(*k as u64);
+        }
+        out.sigs.push(f.0);
+        out.nontrivial_sigs.push(f.0);
+        out.log_hash = {
+            let mut h = Fnv::new();
+            h.u64(cx.nodes);
+            for s in &out.oracle_states {
+                h.u64(*s);
+            }
+            h.u64(cx.viol.is_some() as u64);
+            h.0
+        };
+        if let Some(e) = cx.harness {
+            out.harness_error = Some(e);
+        }
+        if let Some((v, p)) = cx.viol {
+            out.violation = Some(v);
+            out.narrowed = Some(SeqPlan { explicit: Some(p), ..plan.clone() });
+        }
+        out
+    }
+    fn shrink(&self, p: &SeqPlan) -> Vec<SeqPlan> {
+        let mut out = Vec::new();
+        if let Some(e) = &p.explicit {
+            for i in 0..e.len() {
+                let mut q = e.clone();
+                q.remove(i);
+                out.push(SeqPlan { explicit: Some(q), ..p.clone() });
+            }
+            if p.drawn_first {
+                out.push(SeqPlan { drawn_first: false, ..p.clone() });
+            }
+            if p.n_rows > 0 {
+                out.push(SeqPlan { n_rows: p.n_rows - 1, ..p.clone() });
+            }
+        }
+        out
+    }
+    fn exhaustive(&self, _tier: Tier) -> bool {
+        true
+    }
+    fn meta(&self) -> Meta {
+        Meta {
+            level: "exploration",
+            rule: "Exhaustive enumeration: every sequence of 1..L events (L = 4 quick, 5 thorough) over the property's 21-symbol alphabet, for tables of 0, 1, 2 and 3 aircraft, with the first event arriving before or after the first draw, on a 120x24 and on a 4x2 terminal; each event goes through the real update() and is followed by the real build_table() draw, judged after every event like the seeded scenario (panic, selection range, flag transition function). Distinct = one per (table size, start, terminal, first two events) block; the number of distinct UI states reached is reported as distinct_oracle_states.",
+            components: vec![
+                ("jet1090::update, Jet1090::next/previous/home", "real"),
+                ("jet1090::table::build_table on ratatui TestBackend", "real"),
+                ("jet1090::snapshot::update_snapshot (rows)", "real"),
+                ("event source / TUI loop body", "stub (direct calls in the order of the loop: update, then draw)"),
+            ],
+            assumptions: vec!["the table does not change during a sequence (rows appearing, ageing and expiring between events are covered by the seeded scenario)"],
+            fault_kinds: vec!["key_before_first_draw", "tiny_terminal"],
+            probes: vec!["sequences_prefix_nodes", "nav_on_empty_table", "selection_out_of_range_after_draw"],
+        }
     }
 }
